@@ -45,10 +45,14 @@ def _num_arr(env, vals):
     return np.array(vals, dtype=float)
 
 
-def h_out_of_bounds(env, boundary_type="center", same_tomo=False, dims_kind="Nx4"):
+def h_out_of_bounds(env, boundary_type="center", same_tomo=False, dims_kind="Nx4", index="default"):
     cm = env.module("cryomotl")
     rows = [_part(env, "a", 1.0, 1.0), _part(env, "b", 1.0 if same_tomo else 2.0, 2.0)]
     m = mk_motl(env, cm, rows)
+    if index == "gaps":
+        m.df.index = [3, 1]            # row labels of a list that went through remove_feature / adapt_to_trimming / a subset without reset
+    elif index == "swapped":
+        m.df.index = [1, 0]
     before = [row(m.df, i) for i in range(2)]
     d = [[env.real("d%d%s" % (t, ax), 1, 120) for ax in "xyz"] for t in (1, 2)]
     dims = _num_arr(env, [[1.0] + d[0], [2.0] + d[1]])
@@ -195,6 +199,7 @@ def jobs(tier, seed):
         ("h_out_of_bounds", {"boundary_type": "center"}),
         ("h_out_of_bounds", {"boundary_type": "whole"}),
         ("h_out_of_bounds", {"boundary_type": "center", "same_tomo": True, "dims_kind": "Nx4_df"}),
+        ("h_out_of_bounds", {"boundary_type": "center", "index": "swapped"}), ("h_out_of_bounds", {"boundary_type": "whole", "same_tomo": True, "index": "gaps"}),
         ("h_adapt_to_trimming", {}),
         ("h_clean_by_points", {"same_tomo": True}),
         ("h_clean_by_points", {"same_tomo": False, "inplace": False}),
